@@ -144,7 +144,9 @@ def _run(ctx):
     ops_i = common.param_index_of_type(acc, r"^std::vec::Vec<%s>$" % ctx.N.rx("SwapOperation"))
 
     # ---- R2 -------------------------------------------------------------------------------------------
-    hops = [(fn, b, i, v, span) for (fn, b, i, adt, var, v, span) in common.message_sites(P) if adt + "::" + var == HOP_VARIANT(ctx)]
+    # R2 reasons about the statement that decides the hop's `to`: it needs the real construction site of the hop message
+    # (inside a constructor helper, if there is one), not the site lifted into the caller
+    hops = [(fn, b, i, v, span) for (fn, b, i, adt, var, v, span) in common.raw_message_sites(P, HOP_VARIANT(ctx))]
     if len(hops) == 1 and not (hops[0][0].kind == "closure" and hops[0][0].parent == acc.path):
         loop_form_r2(ctx, r2, rr, hops[0], ops_i)
     elif len(hops) != 1:
@@ -205,7 +207,21 @@ def _run(ctx):
                             if inner[0] == "proj" and inner[2] == ("f", 0):
                                 inner = inner[1]
                             good = inner[0] == "binop" and inner[1] in ("AddWithOverflow", "Add") and upvar_index(inner[2], cf.path) == cnt and inner[3] == ("const", "int", 1)
-                            good = good and cb.loc_dominates((wb, wi), (guard.b, 0))
+                            # position where the comparison reads the counter: the `Eq` statement (primitive) or the eq call's block terminator
+                            cmp_b = guard.cond[4] if len(guard.cond) > 4 and isinstance(guard.cond[4], int) else guard.b
+                            cmp_pos = (cmp_b, len(cb.blocks[cmp_b]["stmts"]))
+                            if len(guard.cond) > 5 and guard.cond[5] == "prim":
+                                js = [j for j, s2 in enumerate(cb.blocks[cmp_b]["stmts"]) if s2["k"] == "assign" and s2["rv"]["k"] == "binop" and s2["rv"].get("op") in ("Eq", "Ne")]
+                                if js:
+                                    cmp_pos = (cmp_b, js[-1])
+                                    # the operands are temporaries: the counter is *read* where they are defined
+                                    for opk in ("a", "b"):
+                                        o_ = cb.blocks[cmp_b]["stmts"][js[-1]]["rv"][opk]
+                                        if o_["k"] in ("copy", "move") and not o_["place"]["p"]:
+                                            for site_ in cb.reaching((cmp_b, js[-1]), o_["place"]["l"]):
+                                                if site_ != "entry":
+                                                    good = good and cb.loc_dominates((wb, wi), (site_[0], site_[1]))
+                            good = good and cb.loc_dominates((wb, wi), cmp_pos)
                         if not good:
                             r2.fail("C13.R2:increment", cf.path, where, "the hop counter is not incremented by exactly 1, once, before the last-hop test")
                         else:
@@ -290,7 +306,8 @@ def _run(ctx):
     for b, p, fr, t in P.calls(acc):
         if roles.is_workspace_fn(P, p):
             vf = P.fn(p) or P.fn(generic_path(p))
-            if vf.sig and re.search(r"fn\(&'?\w* ?\[%s\]\) -> std::result::Result<\(\), cosmwasm_std::StdError>" % ctx.N.rx("SwapOperation"), vf.sig):
+            if vf.sig and re.search(r"fn\(&'?\w* ?\[%s\]\) -> std::result::Result<\(\), cosmwasm_std::StdError>" % ctx.N.rx("SwapOperation"), vf.sig) \
+                    and common.check_helper(P, vf) is None:      # a one-condition check helper (e.g. the empty-route test) is a guard, not the validator
                 validators.append((b, vf))
     if len(validators) != 1:
         r4.fail("C13.R4:validator-anchor", acc.path, acc.span, "anchor-missing: route validator call (fn(&[SwapOperation]) -> StdResult<()>): %d found" % len(validators))
